@@ -32,12 +32,21 @@ RULE = (
 )
 ASSUMPTIONS = ["subsets are non-empty and contain only existing nodes"]
 REQUIRED_CLASSES = {t: ["c15:closure_strictly_between", "c15:several_lineages", "part:geff", "part:csv", "c15:after_session", "c15:imported_seg_id_differs",
-                        "c15:export_history_export"]
+                        "c15:export_history_export", "c15:large_sparse_closure"]
                     for t in ("quick", "thorough")}
 
 
 def _make(rnd, fmt, session=False):
-    cfg = gen_config(rnd, allow_optional=False)
+    if rnd.random() < 0.15:
+        # long tracks (20-50 nodes, sparse strided ids): selections whose closure is large
+        cfg = gen_config(rnd, allow_optional=False, big_frames=True, max_frames=12)
+        cfg["layout"] = "lanes"
+        cfg["frames"] = max(cfg["frames"], rnd.randint(8, 16))
+        if cfg["seg"] and rnd.random() < 0.7:
+            cfg["seg_dtype"] = rnd.choice(["int64", "uint32", "int32", "uint64"])
+            cfg["lane_stride"] = rnd.choice([1000, 10000])
+    else:
+        cfg = gen_config(rnd, allow_optional=False)
     init = gen_init(rnd, cfg, max_nodes=10, need_edges=True)
     ops = []
     mid = []
@@ -70,7 +79,7 @@ def _make(rnd, fmt, session=False):
     leaves = [i for i in ids if i not in has_child]
     subset = []
     if ids:
-        k = rnd.randint(1, min(3, len(ids)))
+        k = rnd.randint(1, min(3, len(ids))) if cfg.get("layout") != "lanes" else rnd.randint(2, min(5, len(ids)))
         for _ in range(k):
             pool = leaves if (leaves and rnd.random() < 0.6) else ids
             subset.append(pool[rnd.randint(0, len(pool) - 1)])
@@ -89,6 +98,8 @@ def _classify(res, inp, world, closure):
     hit = sum(1 for c in lin if c & sub)
     if hit > 1:
         res.tags.append("c15:several_lineages")
+    if len(closure) >= 24 and world.cfg["seg"] and nodes and max(nodes) - min(nodes) > 3000:
+        res.tags.append("c15:large_sparse_closure")
     if sub < closure < nodes:
         res.tags.append("c15:closure_strictly_between")
         res.nontrivial = (inp["fmt"], world.cfg["seg"], world.ndim, len(sub), len(closure), len(nodes), hit)
